@@ -1178,6 +1178,10 @@ func (tc *typechecker) checkBuiltinCall(expr *ast.Call) []*typeInfo {
 			}
 			arg1 := expr.Args[1]
 			t := tc.checkExpr(arg1)
+			if t.Nil() { // append(s, nil...)
+				t = tc.nilOf(slice.Type)
+				tc.compilation.typeInfos[arg1] = t
+			}
 			// Handle the special case:
 			//
 			//     append(t, s...)
